@@ -4,6 +4,9 @@ import B2Z.Model.RegionIndex
 import B2Z.Model.Plink
 import B2Z.Model.LocalAlleles
 import B2Z.Model.Sched
+import B2Z.Model.Regions
+import B2Z.Model.IndexBytes
+import B2Z.Model.Icf
 /-! JSON line-protocol driver: one request object per line in, one JSON value per line out.
     Only `Model.*` (core Lean) is imported, so this also builds as a native executable. -/
 open Lean
@@ -68,6 +71,39 @@ def resJson : Sched.Res → Json
   | .broken => Json.str "broken"
   | .cancelled => Json.str "cancelled"
   | .exc e => Json.num e
+
+def hexVal (c : Char) : Nat :=
+  if c.isDigit then c.toNat - 48 else if 'a' ≤ c ∧ c ≤ 'f' then c.toNat - 87 else c.toNat - 55
+
+def bytesOfHex (s : String) : List Nat :=
+  let rec go : List Char → List Nat
+    | a :: b :: rest => (hexVal a * 16 + hexVal b) :: go rest
+    | _ => []
+  go s.toList
+
+def hexDigit (n : Nat) : Char := if n < 10 then Char.ofNat (48 + n) else Char.ofNat (87 + n)
+def hexOfBytes (bs : List Nat) : String :=
+  String.mk (bs.flatMap fun b => [hexDigit (b / 16 % 16), hexDigit (b % 16)])
+
+def countJson : Idx.Count → Json
+  | .unknown => Json.str "unknown"
+  | .known n => Json.num (JsonNumber.fromNat n)
+
+def chunkJson (c : Chunk) : Json := natsJson [c.beg, c.fin]
+
+def regJson : Regions.Reg → Json
+  | .bounded c s e => Json.arr #[Json.num (JsonNumber.fromNat c), Json.num (JsonNumber.fromNat s), Json.num (JsonNumber.fromNat e)]
+  | .openEnd c s => Json.arr #[Json.num (JsonNumber.fromNat c), Json.num (JsonNumber.fromNat s), Json.null]
+  | .whole c => Json.arr #[Json.num (JsonNumber.fromNat c), Json.null, Json.null]
+
+def offsJson (os : List Regions.Off) : Json :=
+  Json.arr (os.map fun o => natsJson [o.off, o.contig, o.pos]).toArray
+
+def parseChunks (v : Json) : Except String (List Chunk) := do
+  let a ← v.getArr?
+  a.toList.mapM fun c => do
+    let l ← natList c
+    pure (⟨l.getD 0 0, l.getD 1 0⟩ : Chunk)
 
 def handle (j : Json) : Except String Json := do
   let op ← (← j.getObjVal? "op").getStr?
@@ -143,6 +179,107 @@ def handle (j : Json) : Except String Json := do
     let evs := Sched.poolRun out outs.length w sched
     pure (Json.mkObj [("verdict", verdictJson (Sched.command out outs.length w sched)),
       ("events", Json.arr (evs.map fun (t, r) => Json.arr #[Json.num t, resJson r]).toArray)])
+  | "csi.parse" =>
+    let hex ← (← j.getObjVal? "hex").getStr?
+    match Idx.parseCsi (bytesOfHex hex) with
+    | .error e => pure (Json.mkObj [("error", Json.str e)])
+    | .ok x => pure (Json.mkObj [
+        ("min_shift", Json.num (JsonNumber.fromInt x.minShift)), ("depth", Json.num (JsonNumber.fromInt x.depth)),
+        ("aux", Json.str (hexOfBytes x.aux)),
+        ("bins", Json.arr (x.bins.map fun bs => Json.arr (bs.map fun b =>
+            Json.arr #[Json.num (JsonNumber.fromNat b.bin), Json.num (JsonNumber.fromNat b.loffset), Json.arr (b.chunks.map chunkJson).toArray]).toArray).toArray),
+        ("record_counts", Json.arr (x.counts.map countJson).toArray),
+        ("n_no_coor", Json.num (JsonNumber.fromNat x.nNoCoor)),
+        ("seq_names", Json.arr ((Idx.csiSeqNames x.aux).map fun n => Json.str (hexOfBytes n)).toArray)])
+  | "tbi.parse" =>
+    let hex ← (← j.getObjVal? "hex").getStr?
+    match Idx.parseTbx (bytesOfHex hex) with
+    | .error e => pure (Json.mkObj [("error", Json.str e)])
+    | .ok x => pure (Json.mkObj [
+        ("header", intsJson x.header), ("names", Json.arr ((Idx.splitNames x.names).map fun n => Json.str (hexOfBytes n)).toArray),
+        ("bins", Json.arr (x.bins.map fun bs => Json.arr (bs.map fun b =>
+            Json.arr #[Json.num (JsonNumber.fromNat b.bin), Json.arr (b.chunks.map chunkJson).toArray]).toArray).toArray),
+        ("linear", Json.arr (x.linear.map natsJson).toArray),
+        ("record_counts", Json.arr (x.counts.map countJson).toArray),
+        ("n_no_coor", Json.num (JsonNumber.fromNat x.nNoCoor))])
+  | "csi.encode" =>
+    let ms ← reqInt j "min_shift"; let depth ← reqInt j "depth"
+    let aux ← (← j.getObjVal? "aux").getStr?
+    let bins ← (← reqArr j "bins").toList.mapM fun ref => do
+      (← ref.getArr?).toList.mapM fun b => do
+        let a ← b.getArr?
+        let bin ← (a.getD 0 Json.null).getNat?
+        let lo ← (a.getD 1 Json.null).getNat?
+        let cs ← parseChunks (a.getD 2 Json.null)
+        pure (⟨bin, lo, cs⟩ : Idx.CsiBin)
+    pure (Json.str (hexOfBytes (Idx.encodeCsi ms depth (bytesOfHex aux) bins (optNat j "tail"))))
+  | "tbi.encode" =>
+    let hdr6 ← intList (← j.getObjVal? "hdr6")
+    let names ← (← j.getObjVal? "names").getStr?
+    let refs ← (← reqArr j "refs").toList.mapM fun ref => do
+      let a ← ref.getArr?
+      let bins ← (← (a.getD 0 Json.null).getArr?).toList.mapM fun b => do
+        let ba ← b.getArr?
+        let bin ← (ba.getD 0 Json.null).getNat?
+        let cs ← parseChunks (ba.getD 1 Json.null)
+        pure (⟨bin, cs⟩ : Idx.TbxBin)
+      let lin ← natList (a.getD 1 Json.null)
+      pure (bins, lin)
+    pure (Json.str (hexOfBytes (Idx.encodeTbx hdr6 (bytesOfHex names) refs (optNat j "tail"))))
+  | "bin.arith" =>
+    let ms ← reqNat j "min_shift"; let depth ← reqNat j "depth"; let bin ← reqNat j "bin"
+    pure (natsJson [Regions.firstBinInLevel (depth + 1), Regions.levelForBin depth bin, Regions.firstLocus ms depth bin])
+  | "regions.offsets_tbi" =>
+    let lin ← (← reqArr j "linear").toList.mapM natList
+    pure (offsJson (Regions.offsetsTbi 16384 lin))
+  | "regions.offsets_csi" =>
+    let ms ← reqNat j "min_shift"; let depth ← reqNat j "depth"
+    let tie := (j.getObjVal? "tie").toOption.bind (·.getBool?.toOption) |>.getD true
+    let bins ← (← reqArr j "bins").toList.mapM fun ref => do
+      (← ref.getArr?).toList.mapM fun b => do
+        let l ← natList b
+        pure (⟨l.getD 0 0, l.getD 1 0⟩ : Regions.Bin)
+    pure (offsJson (Regions.offsetsCsi tie ms depth bins))
+  | "regions.partition" =>
+    let recs ← (← reqArr j "recs").toList.mapM fun r => do
+      let l ← natList r; pure (⟨l.getD 0 0, l.getD 1 0⟩ : Regions.Rec)
+    let offs ← (← reqArr j "offs").toList.mapM fun r => do
+      let l ← natList r; pure (⟨l.getD 0 0, l.getD 1 0, l.getD 2 0⟩ : Regions.Off)
+    let fileLen ← reqNat j "file_len"; let nContigs ← reqNat j "n_contigs"
+    let has ← (← reqArr j "has_recs").toList.mapM (·.getBool?)
+    let raw := (j.getObjVal? "raw").toOption.bind (·.getBool?.toOption) |>.getD false
+    let hasRecs : Nat → Bool := fun c => has.getD c false
+    let r := if raw then Regions.partitionRaw offs fileLen (optNat j "num_parts") (optNat j "target_size") nContigs hasRecs
+             else Regions.partition recs offs fileLen (optNat j "num_parts") (optNat j "target_size") nContigs hasRecs
+    pure (optJson (fun gs => Json.arr (gs.map regJson).toArray) r)
+  | "icf.write" =>
+    -- parts: per partition the list of getsizeof values; the appended values are 0,1,2,… globally
+    let maxBytes ← reqNat j "max_bytes"
+    let parts ← (← reqArr j "parts").toList.mapM natList
+    let store := B2Z.writeStore maxBytes (parts.map fun p => p.zipIdx.map fun (sz, i) => (i, sz))
+    pure (Json.arr (store.map fun p => natsJson p.chunkIndex).toArray)
+  | "icf.iter" =>
+    -- parts: per partition the list of chunk lengths; values are 0,1,2,… globally
+    let parts ← (← reqArr j "parts").toList.mapM natList
+    let a ← reqNat j "a"; let b ← reqNat j "b"
+    let (store, _) := parts.foldl (fun (acc : List (B2Z.Part Nat) × Nat) (lens : List Nat) =>
+      let (chunks, n) := lens.foldl (fun (c : List (List Nat) × Nat) (l : Nat) => (c.1 ++ [List.range' c.2 l], c.2 + l)) ([], acc.2)
+      (acc.1 ++ [({ chunks := chunks } : B2Z.Part Nat)], n)) ([], 0)
+    pure (natsJson (B2Z.iterValues store a b))
+  | "icf.summary" =>
+    let minInt ← reqInt j "min_int"
+    let parts ← (← reqArr j "parts").toList.mapM fun p => do
+      (← p.getArr?).toList.mapM fun v => do
+        match v with
+        | .null => pure (none : B2Z.IVal)
+        | _ =>
+          let a ← v.getArr?
+          let xs ← intList (a.getD 0 Json.null)
+          let n ← (a.getD 1 Json.null).getNat?
+          pure (some (xs, n))
+    let s := B2Z.storeSummary minInt parts
+    let o : Option Int → Json := fun x => match x with | none => Json.null | some v => Json.num (JsonNumber.fromInt v)
+    pure (Json.mkObj [("max_number", Json.num (JsonNumber.fromNat s.maxNumber)), ("min_value", o s.minV), ("max_value", o s.maxV)])
   | _ => throw s!"unknown op {op}"
 
 def handleLine (line : String) : String :=
